@@ -25,7 +25,7 @@ open Hub.Generated (Status AmountForBytes GetProportionOfCoin Gigabyte)
 /-! ### statements -/
 
 /-- The node of a node subscription. -/
-def subNode (x : Sub) : Option Addr :=
+def subNodeAddr (x : Sub) : Option Addr :=
   match x.kind with
   | .node n _ _ _ => some n
   | .plan _ _ => none
@@ -38,7 +38,7 @@ def Payee (s : State) (a : Addr) : Prop :=
   a = depositAddr ∨ a = feeCollectorAddr ∨ a = distrAddr ∨
   (∃ i p, (s.planActive.get i = some p ∨ s.planInactive.get i = some p) ∧ p.prov = a) ∨
   (∃ i x, s.subs.get i = some x ∧ x.addr = a) ∨
-  (∃ i x, s.subs.get i = some x ∧ subNode x = some a) ∨
+  (∃ i x, s.subs.get i = some x ∧ subNodeAddr x = some a) ∨
   (∃ i p, s.payouts.get i = some p ∧ p.node = a) ∨
   (∃ i x, s.sessions.get i = some x ∧ x.node = a)
 
